@@ -42,7 +42,7 @@ class Core:
     """Transport independent part: memory, properties, program-once words, command execution."""
 
     def __init__(self, max_packet: Optional[int] = 32, cmd_status: int = SUCCESS, final_status: int = SUCCESS):
-        self.mem = bytearray(MEM_SIZE)
+        self.mem = bytearray((i * 3 + (i >> 8) + 1) & 0xFF for i in range(MEM_SIZE))  # position-dependent content
         self.props = {1: [0x4B030100], 4: [MEM_SIZE], 10: [1], 14: [0x20000000]}
         if max_packet is not None:
             self.props[11] = [max_packet]
@@ -294,6 +294,12 @@ class SerialLink:
                     continue
                 if self.await_ack:
                     self.core.errors.append("host sent a frame while the device waits for an ACK")
+                    if t == 0xA4:
+                        # a new command ends whatever the device was still trying to deliver (its ACK wait times out):
+                        # pending frames are dropped, so that a session can recover after a disturbed exchange
+                        self.queue.clear()
+                        self.await_ack = False
+                        self.core.dout = None
                 self._emit(b"\x5a\xa1", "ack")
                 items = self.core.command(payload) if t == 0xA4 else self.core.data_in(payload)
                 self.queue += items
